@@ -146,9 +146,11 @@ def parse_assumptions(out):
 
 def vo_key():
     h = hashlib.sha1()
+    # content, not modification time: the property file under check is recompiled on every run (to print its
+    # assumptions) and comes out byte-identical when nothing it depends on changed
     for f in sorted(glob_files(COQ, ('.vo',))):
-        st = os.stat(f)
-        h.update(('%s %d %d\n' % (f, st.st_size, int(st.st_mtime))).encode())
+        h.update(f.encode())
+        h.update(hashlib.sha1(open(f, 'rb').read()).digest())
     return h.hexdigest()
 
 
